@@ -25,7 +25,7 @@ def gen_case(seed, i, engine):
     if r.random() < 0.5:
         lines += ["sleep 300", "compact 0"]   # a young mark: nothing may expire yet
         lines += ["get %s 0" % hx(k) for k in keys]
-    lines += ["sleep 1300", "compact 0"]      # marks older than the TTL now exist
+    lines += ["sleep 1300", "compact 0", "dellog"]      # marks older than the TTL now exist
     lines.append("echo after-expiry")
     lines += ["get %s 0" % hx(k) for k in keys]
     lines.append("list %s %s 0 0" % (hx(PREFIX + b"/"), hx(PREFIX + b"0")))
